@@ -328,7 +328,7 @@ KERNEL_OPS = ("spawn", "exit", "reap", "tick", "setbtime")
 def stat_line(pid, start, zombie):
     # pid (comm) state ppid pgrp session tty_nr tpgid flags minflt cminflt majflt cmajflt utime stime
     # cutime cstime priority nice num_threads itrealvalue starttime vsize rss … (52 fields)
-    tail = ["Z" if zombie else "S", "1", str(pid), str(pid), "0", "-1", "4194304"] + ["0"] * 7 + \
+    tail = ["Z" if zombie else "S", "1", str(pid), str(pid), "0", "-1", "4194304"] + ["0"] * 8 + \
            ["20", "0", "1", "0", str(start), "1000", "10"] + ["0"] * 28
     return ("%d (proc %d) " % (pid, pid) + " ".join(tail) + "\n").encode()
 
@@ -703,7 +703,9 @@ class Plan:
             self.ev(op="create_time", i=i)
         elif r < 0.8:
             self.ev(op="hash", i=i)
-        elif r < 0.9:
+        elif r < 0.9 and self.k.procs:
+            # (an empty process table is impossible on a real system — the caller exists — and makes
+            # psutil.pids() raise IndexError on `ret[0]`; not generated)
             self.ev(op="process_iter")
         else:
             self.ev(op="eq", i=i, j=self.rng.randrange(self.nobj))
